@@ -323,15 +323,15 @@ Proof.
     unfold raw. cbn [wire layout enc_fields align8 flat_map]. rewrite !app_nil_r. reflexivity.
 Qed.
 
-(* an Ethernet frame: addresses, an optional 802.1Q tag (a tag whose VLAN id is 0 is excluded:
-   finding D31), the ethertype, the payload *)
+(* an Ethernet frame: addresses, an optional 802.1Q tag (a tag whose TCI is 0 - no VLAN, priority
+   0, no DEI - is the untagged frame for this library), the ethertype, the payload *)
 Record ethrec := { e_dst : list byte ; e_src : list byte ; e_tci : option N ; e_type : N ; e_pl : l3 }.
 Definition eth_tree (e : ethrec) : tree :=
   T KEth [VB (e_dst e); VB (e_src e)]
     ((match e_tci e with Some tci => [T KVlan [VN 33024; VN tci] []] | None => [] end) ++ [T KU16 [VN (e_type e)] []; l3_tree (e_pl e)]).
 Definition eth_ok (e : ethrec) : bool :=
   Nat.eqb (length (e_dst e)) 6 && Nat.eqb (length (e_src e)) 6 && (e_type e <? 65536) &&
-  (match e_tci e with Some tci => (tci <? 65536) && negb (N.land tci 4095 =? 0) | None => negb (e_type e =? 33024) end) &&
+  (match e_tci e with Some tci => (tci <? 65536) && negb (tci =? 0) | None => negb (e_type e =? 33024) end) &&
   l3_ok (e_pl e) && l3_sel (e_pl e) (e_type e).
 
 Theorem dec_eth_rt e : eth_ok e = true -> dec_eth (wire (eth_tree e)) = Ok (eth_tree e).
